@@ -11,8 +11,9 @@ from memserver import Req, Client, CLOCK
 from authlib.oauth2 import OAuth2Error
 
 CLIENTS = [("c1", "s1", "client_secret_basic", "a b c", ["https://c1/cb", "https://c1/cb2", "https://c1/dir/", "https://c1/cb3?next=%2Fhome"]), ("c2", "s2", "client_secret_post", "a b", ["https://c2/cb"]),
-           ("pub", "", "none", "a", ["https://pub/cb"])]
-CFG_CLIENTS = [{"id": c, "uris": u, "scope": sc, "method": m} for c, s, m, sc, u in CLIENTS]
+           ("pub", "", "none", "a", ["https://pub/cb"]),
+           ("c3", "s3", None, "a b", ["https://c3/cb"])]          # a confidential client registered without token_endpoint_auth_method (default: client_secret_basic)
+CFG_CLIENTS = [{"id": c, "uris": u, "scope": sc, "method": m or "client_secret_basic"} for c, s, m, sc, u in CLIENTS]
 V43 = "v" * 43
 V_ALT = "A-._~0" * 8
 
@@ -21,9 +22,10 @@ def s256(v):
     return base64.urlsafe_b64encode(hashlib.sha256(v.encode()).digest()).rstrip(b"=").decode()
 
 
-def creds(cid, ok=True):
-    """(headers, form additions) that authenticate `cid` with its registered method — or fail"""
+def creds(cid, ok=True, method=None):
+    """(headers, form additions) that authenticate `cid` with its registered method (or the one named) — or fail"""
     c = {x[0]: x for x in CLIENTS}[cid]
+    c = (c[0], c[1], method or c[2] or "client_secret_basic") + tuple(c[3:])
     sec = c[1] if ok else c[1] + "-wrong"
     if c[2] == "client_secret_basic":
         return ms.basic(cid, sec), {}
@@ -36,7 +38,7 @@ def auth_of(op):
     a = op.get("auth")
     if not a:
         return ms.basic("c1", "definitely-wrong"), {}
-    return creds(a[0], True)
+    return creds(a[0], True, a[1] if len(a) > 1 and a[0] == "c3" else None)
 
 
 class World:
@@ -233,7 +235,7 @@ def gen_history(rng, length, flavor, pkce_required=False, supported=None, strict
     w = World(pkce_required, supported, strict_hint)
     ops, outs = [], []
     codes, ats, rts, dcs, ucs = [], [], [], [], []
-    cids = [c[0] for c in CLIENTS]
+    cids = [c[0] for c in CLIENTS[:3]]
     def auth(p_ok=0.85, prefer=None):
         if rng.random() > p_ok:
             return None
